@@ -46,6 +46,24 @@ def handle : List String → String
     match n.toNat?, parseHex h with
     | some n, some s => let r := copyString n s; s!"{r.1} {toHex r.2}"
     | _, _ => "bad-op"
+  | ["bytes2str", h, off, len] =>
+    match parseHex h, off.toNat?, len.toNat? with
+    | some a, some o, some l => toHex (bytesToString a o l)
+    | _, _, _ => "bad-op"
+  | ["sbytes2str", h, off, len] =>       -- specification: the bytes of the slice window
+    match parseHex h, off.toNat?, len.toNat? with
+    | some a, some o, some l => toHex ((a.drop o).take l)
+    | _, _, _ => "bad-op"
+  | ["str2bytes", h] =>
+    match parseHex h with
+    | some s => toHex (stringToBytes s)
+    | none => "bad-op"
+  | ["index", h, i] =>
+    match parseHex h, i.toInt? with
+    | some s, some i => match indexString s i with
+      | some b => toString b
+      | none => "panic:index"
+    | _, _ => "bad-op"
   | ["encstr", h] =>              -- the literal text emitted for a Go string
     match parseHex h with
     | some s => toHex (GV.StrLit.encodeString s)
